@@ -41,11 +41,17 @@ def scenario(rng, ndir=6):
                 cb["prov"] = "sm"
     steps = [new]
     styles = ["send", "event", "events_item", "allowed_item", "bound"] + (["mixin_bound"] if mixin else [])
+    if not mixin and rng.random() < 0.35:
+        # a second machine of the class lends its event objects: sm.send(other.events[k]) - an Event is a str - is a send
+        # of that NAME to sm
+        steps.append({"op": "new", "i": 2, "cls": 1, "opt": dict(new["opt"]), "stored": "", "provs": list(new["provs"]),
+                      "gv": gen.rand_gv(rng)})
+        styles += ["send_from", "send_from"]
     for _ in range(rng.randint(4, 14)):
         r = rng.random()
         if r < 0.45:
             steps.append({"op": "call", "i": 1, "api": rng.choice(styles), "ev": rng.choice(d["evlist"]),
-                          "gv": gen.rand_gv(rng)})
+                          "gv": gen.rand_gv(rng), "j": 2})
         else:
             kind = rng.random()
             if kind < 0.6:
